@@ -58,6 +58,8 @@ func runC03(c *engine.Ctx) {
 	r5 := c.Rule("R5", "status table: full/partial from the missing-link record; nil -> finish; first-block-load -> content-not-found, produced exactly when nothing was traversed and the traversal was skipped", 2)
 	r6 := c.Rule("R6", "extension wiring: (name, decoder, setter) triples; dedup key applied before the ignore list", 3)
 	r7 := c.Rule("R7", "every load is followed by the send step for the same link and data", 1)
+	r8 := c.Rule("R8", "a response retired without a final message releases its link tracking first (C19.R7)", 2)
+	checkClearBeforeTerminate(c, r8)
 
 	ra := "responsemanager/responseassembler"
 	build := c.P.Func(ra, "blockOperation", "build")
